@@ -212,7 +212,8 @@ def w_histories(ctx: core.Ctx, arg):
         variant = (arg['i'] + hno // 4) % 4
         async_mgr = variant in (1, 3)
         ctx_in_getmdib = variant != 2
-        world = World(mdib_file, async_mgr=async_mgr, role_provider=False, contextstates_in_getmdib=ctx_in_getmdib)
+        instance_id = [1, 0, None, 42][(arg['i'] // 4 + hno) % 4]  # 0 and None are valid values too
+        world = World(mdib_file, async_mgr=async_mgr, role_provider=False, contextstates_in_getmdib=ctx_in_getmdib, instance_id=instance_id)
         mdib = world.mdib
         consumers = []
         monitor = ReportMonitor(ctx, world.network)
@@ -223,7 +224,8 @@ def w_histories(ctx: core.Ctx, arg):
         memo = {}
         weights = dict(mdibops.DEFAULT_WEIGHTS)
         weights.update({'abort': 1, 'reject': 1})
-        label = {'mdib_file': mdib_file, 'async_mgr': async_mgr, 'contextstates_in_getmdib': ctx_in_getmdib, 'history': [arg['i'], hno]}
+        label = {'mdib_file': mdib_file, 'async_mgr': async_mgr, 'contextstates_in_getmdib': ctx_in_getmdib, 'instance_id': instance_id,
+                 'history': [arg['i'], hno]}
         shapes = []
         ok = True
         for step in range(arg['len']):
@@ -245,6 +247,7 @@ def w_histories(ctx: core.Ctx, arg):
                     ok = False
             if not ok:
                 break
+        ctx.count(f'world.instance_id.{instance_id}')
         ctx.case(tuple(shapes) + (variant,), nontrivial=any(s[5] == 'ok' for s in shapes))
         if hno == 0 and arg['i'] == 0:
             ctx.sample({**label, 'ops': [s[0] for s in shapes][:12], 'final_mdib_version': mdib.mdib_version, 'consumers': len(consumers)})
